@@ -1062,51 +1062,68 @@ theorem env_textOK (t : List Nat) (h : ∀ r ∈ t, r ≤ 0x10FFFF) : TextOK (en
     branches of a run start with a One/Multi (directly or as first child of a Concatenate) with the same
     options word and share a non-empty prefix; the new inner alternation is reduced again (`reduceNode`). -/
 theorem factorText_sound (e : Env) (ht : TextOK e) (on : Bool) (fuel : Nat) (o : Nat) (cs : List RNode) (st : St) :
-    m e (toPat false (factorText (reduceNode false on false fuel) false o cs)) false st
+    m e (toPat false (factorText (reduceNode false false on false fuel) false o cs)) false st
       = m e (toPat false (.alt o cs)) false st :=
   NEq.eq (m_factorText e _ (redSound_reduceNode e ht on fuel) false o cs) st
 
 /-- … and under an Atomic parent (`n.Parent.T == NtAtomic`: the new inner alternation is made atomic
     too) the atomic group keeps its successes -/
 theorem factorText_sound_atomic (e : Env) (ht : TextOK e) (on : Bool) (fuel : Nat) (o : Nat) (cs : List RNode) (st : St) :
-    m e (.atomic (toPat false (factorText (reduceNode false on false fuel) true o cs))) false st
+    m e (.atomic (toPat false (factorText (reduceNode false false on false fuel) true o cs))) false st
       = m e (.atomic (toPat false (.alt o cs))) false st :=
   atomic_eq_of_headEq (NEq.headEq (m_factorText e _ (redSound_reduceNode e ht on fuel) true o cs)) st
 
 /-- `abc|abd|x` ⇒ `ab[cd]|x` (prefix "ab" extracted, the rest merged into a set — which keeps the `Ch` of the
     One it grew from, `mergedOpts` —, the concatenation rebuilt) -/
-example : RNode.same (reduceNode false true false 10 false altAbcAbdX)
+example : RNode.same (reduceNode false false true false 10 false altAbcAbdX)
     (.alt 0 [.cat 0 [.multi 0 [97, 98], .chr (99 * 65536) (.set (.base false [(99, 100)] []))], .chr 0 (.one 120)]) = true := by decide
 
 example : m (env [97, 98, 100]) (toPat false altAbcAbdX) false st0 = [⟨3, []⟩] := by decide
 
 /-- **`extractCommonPrefixOneNotoneSet` is sound**: the branches of a run are Concatenates of at least two
     children whose first children are the SAME One/Notone/Set node or loop of one with `M == N`
-    (type, options, M, N, rune, set all equal) -/
-theorem factorSet_sound (e : Env) (ht : TextOK e) (on : Bool) (fuel : Nat) (o : Nat) (cs : List RNode) (st : St) :
-    m e (toPat false (factorSet (reduceNode false on false fuel) false o cs)) false st
+    (type, options, M, N, rune, set all equal; with `fk` the kind of a fixed loop is not compared — see the
+    example after `factorSet_sound_atomic`) -/
+theorem factorSet_sound (e : Env) (ht : TextOK e) (fk on : Bool) (fuel : Nat) (o : Nat) (cs : List RNode) (st : St) :
+    m e (toPat false (factorSet (reduceNode false fk on false fuel) fk false o cs)) false st
       = m e (toPat false (.alt o cs)) false st :=
-  NEq.eq (m_factorSet e _ (redSound_reduceNode e ht on fuel) false o cs) st
+  NEq.eq (m_factorSet e _ (redSound_reduceNode e ht on fuel fk) false o cs fk) st
 
-theorem factorSet_sound_atomic (e : Env) (ht : TextOK e) (on : Bool) (fuel : Nat) (o : Nat) (cs : List RNode) (st : St) :
-    m e (.atomic (toPat false (factorSet (reduceNode false on false fuel) true o cs))) false st
+theorem factorSet_sound_atomic (e : Env) (ht : TextOK e) (fk on : Bool) (fuel : Nat) (o : Nat) (cs : List RNode) (st : St) :
+    m e (.atomic (toPat false (factorSet (reduceNode false fk on false fuel) fk true o cs))) false st
       = m e (.atomic (toPat false (.alt o cs))) false st :=
-  atomic_eq_of_headEq (NEq.headEq (m_factorSet e _ (redSound_reduceNode e ht on fuel) true o cs)) st
+  atomic_eq_of_headEq (NEq.headEq (m_factorSet e _ (redSound_reduceNode e ht on fuel fk) true o cs fk)) st
+
+/-- the second reduction of an alternation in tail position (`finalOptimize`: after `findAndMakeLoopsAtomic`)
+    may see two fixed repeaters that differed in kind when the tree was built, e.g. `a{2}?$b*|a{2}b` with both
+    loops made atomic: ignoring the kind of a loop with `M == N` (`fk = true`) factors them — `(?>a{2})(?>$b*|b)` —
+    and that is sound because the kind of a fixed repeater has no meaning -/
+example : RNode.same
+    (reduceNode false true true false 10 true (.alt 0 [.cat 0 [.cloop 0 .lzy (.one 97) 2 (some 2), .anchor .endz, .cloop 0 .greedy (.one 98) 0 none],
+      .cat 0 [.cloop 0 .greedy (.one 97) 2 (some 2), .chr 0 (.one 98)]]))
+    (.cat 0 [.cloop 0 .lzy (.one 97) 2 (some 2), .atomic (.alt 0 [.cat 0 [.anchor .endz, .cloop 0 .greedy (.one 98) 0 none], .chr 0 (.one 98)])]) = true := by
+  decide
+
+example : RNode.same
+    (reduceNode false false true false 10 true (.alt 0 [.cat 0 [.cloop 0 .lzy (.one 97) 2 (some 2), .anchor .endz, .cloop 0 .greedy (.one 98) 0 none],
+      .cat 0 [.cloop 0 .greedy (.one 97) 2 (some 2), .chr 0 (.one 98)]]))
+    (.alt 0 [.cat 0 [.cloop 0 .lzy (.one 97) 2 (some 2), .anchor .endz, .cloop 0 .greedy (.one 98) 0 none],
+      .cat 0 [.cloop 0 .greedy (.one 97) 2 (some 2), .chr 0 (.one 98)]]) = true := by decide
 
 /-- `a{2}x|a{2}y` is factored (`a{2}[xy]`), `a{2}x|a{3}y` and `a+x|a+y` are not -/
 example : RNode.same
-    (reduceNode false true false 10 false (.alt 0 [.cat 0 [.cloop 0 .greedy (.one 97) 2 (some 2), .chr 0 (.one 120)],
+    (reduceNode false false true false 10 false (.alt 0 [.cat 0 [.cloop 0 .greedy (.one 97) 2 (some 2), .chr 0 (.one 120)],
       .cat 0 [.cloop 0 .greedy (.one 97) 2 (some 2), .chr 0 (.one 121)]]))
     (.cat 0 [.cloop 0 .greedy (.one 97) 2 (some 2), .chr (120 * 65536) (.set (.base false [(120, 121)] []))]) = true := by decide
 
 example : RNode.same
-    (reduceNode false true false 10 false (.alt 0 [.cat 0 [.cloop 0 .greedy (.one 97) 2 (some 2), .chr 0 (.one 120)],
+    (reduceNode false false true false 10 false (.alt 0 [.cat 0 [.cloop 0 .greedy (.one 97) 2 (some 2), .chr 0 (.one 120)],
       .cat 0 [.cloop 0 .greedy (.one 97) 3 (some 3), .chr 0 (.one 121)]]))
     (.alt 0 [.cat 0 [.cloop 0 .greedy (.one 97) 2 (some 2), .chr 0 (.one 120)],
       .cat 0 [.cloop 0 .greedy (.one 97) 3 (some 3), .chr 0 (.one 121)]]) = true := by decide
 
 example : RNode.same
-    (reduceNode false true false 10 false (.alt 0 [.cat 0 [.cloop 0 .greedy (.one 97) 1 none, .chr 0 (.one 120)],
+    (reduceNode false false true false 10 false (.alt 0 [.cat 0 [.cloop 0 .greedy (.one 97) 1 none, .chr 0 (.one 120)],
       .cat 0 [.cloop 0 .greedy (.one 97) 1 none, .chr 0 (.one 121)]]))
     (.alt 0 [.cat 0 [.cloop 0 .greedy (.one 97) 1 none, .chr 0 (.one 120)],
       .cat 0 [.cloop 0 .greedy (.one 97) 1 none, .chr 0 (.one 121)]]) = true := by decide
@@ -1173,21 +1190,21 @@ example : reduceCP (.set (.base true [(97, 97)] [])) = .notone 97 := by decide
     least three branches that start with a One/Multi regrouped by first rune (stable), the alternation then
     reduced again with the Atomic parent. -/
 theorem reduceAtomic_sound (e : Env) (ht : TextOK e) (on rtl : Bool) (fuel : Nat) (b : RNode) (st : St) :
-    m e (toPat rtl (reduceAtomic (reduceNode false on rtl fuel) false on rtl (.atomic b))) rtl st
+    m e (toPat rtl (reduceAtomic (reduceNode false false on rtl fuel) false on rtl (.atomic b))) rtl st
       = m e (toPat rtl (.atomic b)) rtl st :=
   RewriteDecisions.reduceAtomic_sound e _ on rtl
     (fun h => by subst h; exact redSound_reduceNode e ht on fuel) b st
 
 /-- `(?>hi|there|hello)` ⇒ `(?>h(?>i|ello)|there)`; `(?>a||c)` ⇒ `(?>a|)`; `(?>|a)` ⇒ Empty -/
 example : RNode.same
-    (reduceNode false true false 10 false (.atomic (.alt 0 [.multi 0 [104, 105], .multi 0 [116, 104, 101, 114, 101], .multi 0 [104, 101, 108, 108, 111]])))
+    (reduceNode false false true false 10 false (.atomic (.alt 0 [.multi 0 [104, 105], .multi 0 [116, 104, 101, 114, 101], .multi 0 [104, 101, 108, 108, 111]])))
     (.atomic (.alt 0 [.cat 0 [.chr 0 (.one 104), .atomic (.alt 0 [.chr 0 (.one 105), .multi 0 [101, 108, 108, 111]])],
       .multi 0 [116, 104, 101, 114, 101]])) = true := by decide
 
-example : RNode.same (reduceNode false true false 10 false (.atomic (.alt 0 [.chr 0 (.one 97), .empty, .chr 0 (.one 99)])))
+example : RNode.same (reduceNode false false true false 10 false (.atomic (.alt 0 [.chr 0 (.one 97), .empty, .chr 0 (.one 99)])))
     (.atomic (.alt 0 [.chr 0 (.one 97), .empty])) = true := by decide
 
-example : RNode.same (reduceNode false true false 10 false (.atomic (.alt 0 [.empty, .chr 0 (.one 97)]))) .empty = true := by decide
+example : RNode.same (reduceNode false false true false 10 false (.atomic (.alt 0 [.empty, .chr 0 (.one 97)]))) .empty = true := by decide
 
 /-- the reordering alone (any run of branches that all start with a One/Multi): same ordered successes,
     with or without the Atomic node — branches with a different first rune fail -/
@@ -1198,13 +1215,13 @@ theorem atomicAlt_reorder_sound (e : Env) (bs : List RNode) (st : St) :
 
 /-- **one `reduce()` is sound** (proved variant): the same successes, or — for an alternation whose parent is
     an Atomic node — the same first success -/
-theorem reduceNode_sound (e : Env) (ht : TextOK e) (on rtl : Bool) (fuel : Nat) (n : RNode) (st : St) :
-    m e (toPat rtl (reduceNode false on rtl fuel false n)) rtl st = m e (toPat rtl n) rtl st :=
-  NEq.eq (RewriteDecisions.reduceNode_sound e ht on rtl fuel false n) st
+theorem reduceNode_sound (e : Env) (ht : TextOK e) (fk on rtl : Bool) (fuel : Nat) (n : RNode) (st : St) :
+    m e (toPat rtl (reduceNode false fk on rtl fuel false n)) rtl st = m e (toPat rtl n) rtl st :=
+  NEq.eq (RewriteDecisions.reduceNode_sound e ht fk on rtl fuel false n) st
 
-theorem reduceNode_sound_atomic_parent (e : Env) (ht : TextOK e) (on rtl : Bool) (fuel : Nat) (n : RNode) :
-    HeadEq e rtl (toPat rtl (reduceNode false on rtl fuel true n)) (toPat rtl n) :=
-  NEq.headEq (RewriteDecisions.reduceNode_sound e ht on rtl fuel true n)
+theorem reduceNode_sound_atomic_parent (e : Env) (ht : TextOK e) (fk on rtl : Bool) (fuel : Nat) (n : RNode) :
+    HeadEq e rtl (toPat rtl (reduceNode false fk on rtl fuel true n)) (toPat rtl n) :=
+  NEq.headEq (RewriteDecisions.reduceNode_sound e ht fk on rtl fuel true n)
 
 /-- **the bottom-up pass is sound**: `reduceAll` (children first, then `reduce()` of the node, the ending walk
     inside Atomic nodes, lookarounds and conditions) keeps the ordered successes of every pattern, in either
@@ -1216,33 +1233,33 @@ theorem reduceAll_sound (e : Env) (ht : TextOK e) (on dg : Bool) (fuel : Nat) (n
 /-- **the ending walk keeps the first success**: the constructs in tail position wrapped in Atomic, an
     alternation there reduced again as an atomic alternation (prefix factoring with atomic inner alternations,
     trimming, reordering) -/
-theorem endElim_keeps_first (e : Env) (ht : TextOK e) (fuel f : Nat) (rtl pa w : Bool) (n : RNode) :
-    HeadEq e rtl (toPat rtl (endElim (reduceNode false true rtl fuel) f rtl pa w n)) (toPat rtl n) :=
-  endElim_headEq' e ht true fuel f rtl pa w n
+theorem endElim_keeps_first (e : Env) (ht : TextOK e) (fk : Bool) (fuel f : Nat) (rtl pa w : Bool) (n : RNode) :
+    HeadEq e rtl (toPat rtl (endElim (reduceNode false fk true rtl fuel) f rtl pa w n)) (toPat rtl n) :=
+  endElim_headEq' e ht true fuel f rtl pa w n fk
 
 /-- `x(?:a||c)` ⇒ `x(?>a|)`: in tail position the alternation becomes atomic and loses the branch after Empty -/
-example : RNode.same (rewriteTop false true 12 false (.cat 0 [.chr 0 (.one 120), .alt 0 [.chr 0 (.one 97), .empty, .chr 0 (.one 99)]]))
+example : RNode.same (rewriteTop false false true 12 false (.cat 0 [.chr 0 (.one 120), .alt 0 [.chr 0 (.one 97), .empty, .chr 0 (.one 99)]]))
     (.cat 0 [.chr 0 (.one 120), .atomic (.alt 0 [.chr 0 (.one 97), .empty])]) = true := by decide
 
 /-- **the model of the gated rewrites keeps `find`**: for every tree, direction, start position -/
-theorem rewrites_keep_find (e : Env) (ht : TextOK e) (dg : Bool) (fuel : Nat) (rtl : Bool) (n : RNode) (start : Nat) :
-    find e (toPat rtl (rewriteTop false dg fuel rtl n)) rtl start = find e (toPat rtl n) rtl start :=
-  find_congr_head (rewriteTop_headEq e ht dg fuel rtl n) start
+theorem rewrites_keep_find (e : Env) (ht : TextOK e) (fk dg : Bool) (fuel : Nat) (rtl : Bool) (n : RNode) (start : Nat) :
+    find e (toPat rtl (rewriteTop false fk dg fuel rtl n)) rtl start = find e (toPat rtl n) rtl start :=
+  find_congr_head (rewriteTop_headEq e ht fk dg fuel rtl n) start
 
 /-- **the extended translation validator**: `n` the engine's tree with the rewrites off, `p'` its tree with
     the rewrites on.  If `cert` accepts the pair (Lean's model of the rewrites applied to `n`, `p'`) — i.e. the
     engine's tree is what the model decides, up to auto-atomic / ending differences that are themselves
     justified — then both trees give the same `find` result from every start, in every environment in which the
     oracle bits are true.  Leg Rw evaluates exactly this hypothesis on the engine's pairs of trees. -/
-theorem rewrites_certified {e : Env} {o : AutoAtomic.Oracle} (hs : o.Sound e) (ht : TextOK e) (dg : Bool) (fuel : Nat)
+theorem rewrites_certified {e : Env} {o : AutoAtomic.Oracle} (hs : o.Sound e) (ht : TextOK e) (fk dg : Bool) (fuel : Nat)
     (rtl : Bool) (n : RNode) (p' : Pat)
-    (h : AutoAtomic.certTopDir o rtl (toPat rtl (rewriteTop false dg fuel rtl n)) p' = true) (start : Nat) :
+    (h : AutoAtomic.certTopDir o rtl (toPat rtl (rewriteTop false fk dg fuel rtl n)) p' = true) (start : Nat) :
     find e (toPat rtl n) rtl start = find e p' rtl start :=
-  (rewrites_keep_find e ht dg fuel rtl n start).symm.trans (auto_atomic_certified_dir hs h start)
+  (rewrites_keep_find e ht fk dg fuel rtl n start).symm.trans (auto_atomic_certified_dir hs h start)
 
 /-- `ab|ac` at the end of a pattern against the engine's `a(?>[bc])`… here: `x(?:ab|ac)` ⇒ `xa[bc]` -/
 example : AutoAtomic.certTopDir o0 false
-    (toPat false (rewriteTop false true 12 false (.cat 0 [.chr 0 (.one 120), .alt 0 [.multi 0 [97, 98], .multi 0 [97, 99]]])))
+    (toPat false (rewriteTop false false true 12 false (.cat 0 [.chr 0 (.one 120), .alt 0 [.multi 0 [97, 98], .multi 0 [97, 99]]])))
     (.seq (.seq (lit 120) (lit 97)) (.chr (.set (.base false [(98, 99)] []) false))) = true := by decide
 
 /-- **placing the bump-along marker changes no success** (the marker is Empty for the specification) -/
